@@ -88,7 +88,7 @@ Hierarchy == (NonEmpty /\ InRegime) => \A IA \in Alphas : \A top \in Tops :
            /\ V[n] \subseteq T[n]
            /\ SvcIndexOf(st, T[n], n, IA) <= Cardinality(T[n])
            /\ Cardinality(V[n]) = SvcIndexOf(st, T[n], n, IA)
-           /\ LowerSetOf(SvcPValues(st, T[n]), V[n])
+           /\ \A x \in V[n], y \in T[n] \ V[n] : SvcPNum(st, y) >= SvcPNum(st, x)     \* lower set (one denominator per order)
            /\ (T[n] = {} => V[n] = {})
       \* validated cores are never nested
       /\ \A n1, n2 \in 1..top : \A g \in V[n1], h \in V[n2] : (g \subseteq h) => g = h
